@@ -133,3 +133,12 @@ mod tests {
         assert_eq!(result2, "test");
     }
 }
+
+/// First two characters of a currency code (the part rule C27 compares).
+///
+/// Works on any string: when the text is shorter than two bytes, or byte 2 is not a character
+/// boundary (a value that did not come from the parser), the whole text is returned instead of
+/// panicking on the slice.
+pub fn currency_prefix(currency: &str) -> &str {
+    currency.get(0..2).unwrap_or(currency)
+}
